@@ -129,15 +129,27 @@ LOADERS = ('ok', 'raise_first')
 
 ACCESS = ('call', 'map_composite', 'map_chained', 'static_attr',
           'static_item', 'static_get', 'world_one', 'world_two')
+# map shape 'layered' only: the handle shadowed under the same name
+SHADOW_OPS = ('shadow_call', 'shadow_clear')
 FAMILY = {'call': 'handle', 'map_composite': 'map', 'map_chained': 'map',
           'static_attr': 'static', 'static_item': 'static',
-          'static_get': 'static', 'world_one': 'world', 'world_two': 'world'}
+          'static_get': 'static', 'world_one': 'world', 'world_two': 'world',
+          'shadow_call': 'shadow'}
+# shape of the map the handle is stored in: 'plain' = m['r/k'] = h;
+# 'layered' = a real DirectoryResourcePopulator (nest_on_conflict) run twice
+# over a directory holding the file r/k: two handles under the one name,
+# the newer one is the resource r/k, the older one is shadowed
+SHAPES = ('plain', 'layered')
 # length of the histories over the full (9 letter) alphabet / over the
-# alphabet without the world-file accesses (7 letters, thorough only)
+# alphabet without the world-file accesses (7 letters, thorough only) /
+# over the 11 letters of the layered shape
 DEPTH = {'quick': 4, 'thorough': 5}
 BASIC_DEPTH = 6
-LETTER = dict(zip('cMmaigwWx', ACCESS + ('clear',)))
+LAYERED_DEPTH = {'quick': 3, 'thorough': 4}
+FULL_LETTERS = 'cMmaigwWx'
 BASIC_LETTERS = 'cMmaigx'
+LAYERED_LETTERS = FULL_LETTERS + 'sX'
+LETTER = dict(zip(LAYERED_LETTERS, ACCESS + ('clear',) + SHADOW_OPS))
 
 # -- the world-file access paths -------------------------------------------
 MOD = 'c12h_mod'             # in-memory module: nothing real has this name
@@ -169,8 +181,9 @@ _ATEXIT = []
 
 
 def _ensure_env():
-    """The process-wide things the world-file accesses need: the two JSON
-    files in a private directory, the module ``c12h_mod`` in sys.modules.
+    """The process-wide things the world-file accesses and the layered map
+    shape need: the two JSON files and the directory tree ``pop/r/k`` in a
+    private directory, the module ``c12h_mod`` in sys.modules.
     Created once (before the kernel forks its workers, which inherit it),
     removed by ``_teardown_env()`` in the process that created it."""
     global _ENV
@@ -186,11 +199,17 @@ def _ensure_env():
         files[path] = os.path.join(directory, path + '.json')
         with open(files[path], 'w') as fout:
             json.dump(description, fout)
+    # map shape 'layered': the directory tree the populator walks (one
+    # file, so that no directory listing order is involved)
+    pop = os.path.join(directory, 'pop')
+    os.makedirs(os.path.join(pop, 'r'))
+    with open(os.path.join(pop, 'r', 'k'), 'w') as fout:
+        fout.write('C12 harness: the file behind the resource r/k\n')
     module = types.ModuleType(MOD)
     module.Comp = Comp
     sys.modules[MOD] = module
     object_from_string.cache_clear()
-    _ENV = dict(pid=os.getpid(), dir=directory, files=files)
+    _ENV = dict(pid=os.getpid(), dir=directory, files=files, pop=pop)
     if not _ATEXIT:
         _ATEXIT.append(True)
         atexit.register(_teardown_env)
@@ -366,6 +385,24 @@ class Ctx:
     pass
 
 
+class Track:
+    """Reference model of one handle: what the driver knows about its
+    current clear-delimited epoch."""
+
+    def __init__(self, handle, role):
+        self.h = handle
+        self.role = role            # 'named' (the resource r/k) / 'shadow'
+        self.accessed = False       # an access returned since clear
+        self.failed = False         # an access failed since clear
+        self.epoch_obj = None       # what this epoch's accesses returned
+        #                             (an entry of h.hx_objs, see _same)
+        self.fin_seen = 0           # finaliser records already judged
+        self.had_epoch = False      # some earlier epoch had an access
+
+    def model(self):
+        return (self.accessed, self.failed, self.h.hx_loads, self.had_epoch)
+
+
 def _same(entry, obj):
     """Is obj the loaded object remembered as entry (the object itself, or
     a weak reference to it for the value kind 'finaliser')?"""
@@ -381,21 +418,29 @@ def _is_in(obj, seq):
     return None
 
 
-def part_name(spec, loader):
-    return 'fixpoint/' + spec + ('' if loader == 'ok' else '/' + loader)
+def part_name(spec, loader, shape='plain'):
+    return ('fixpoint/' if shape == 'plain' else f'fixpoint-{shape}/') \
+        + spec + ('' if loader == 'ok' else '/' + loader)
 
 
 class HandleDriver:
-    def __init__(self, spec, loader='ok'):
-        if spec not in VALUES or loader not in LOADERS:
-            raise HarnessError(f'unknown value / loader {spec!r} {loader!r}')
+    def __init__(self, spec, loader='ok', shape='plain'):
+        if spec not in VALUES or loader not in LOADERS \
+                or shape not in SHAPES:
+            raise HarnessError(f'unknown value / loader / shape {spec!r} '
+                               f'{loader!r} {shape!r}')
         self.spec = spec
         self.loader = loader
-        self.name = part_name(spec, loader)
+        self.shape = shape
+        self.name = part_name(spec, loader, shape)
+        self.alphabet = ACCESS + ('clear',) + (
+            SHADOW_OPS if shape == 'layered' else ())
 
     def params(self):
-        return dict(value=self.spec, loader=self.loader,
-                    ops=list(ACCESS) + ['clear'])
+        d = dict(value=self.spec, loader=self.loader, ops=list(self.alphabet))
+        if self.shape != 'plain':
+            d['shape'] = self.shape
+        return d
 
     # -- construction ---------------------------------------------------
     def initial(self):
@@ -403,8 +448,35 @@ class HandleDriver:
         ctx = Ctx()
         ctx.hits = collections.Counter()
         ctx.m = desper.ResourceMap()
-        ctx.h = CountingHandle(self.spec, self.loader)
-        ctx.m['r/k'] = ctx.h
+        if self.shape == 'plain':
+            ctx.h = CountingHandle(self.spec, self.loader)
+            ctx.m['r/k'] = ctx.h
+            ctx.tracks = [Track(ctx.h, 'named')]
+        else:
+            # two handles under the one name r/k, the way desper documents
+            # it: a populator that nests conflicting handles, applied twice.
+            # "The new one will become the default value, but it will always
+            # be possible to retrieve the shadowed one."
+            created = []
+
+            def factory(filename):
+                created.append(CountingHandle(self.spec, self.loader))
+                return created[-1]
+
+            populator = desper.DirectoryResourcePopulator(
+                made['pop'], nest_on_conflict=True)
+            populator.add_rule('r', factory)
+            populator(ctx.m)
+            populator(ctx.m)
+            if len(created) != 2:
+                raise HarnessError(
+                    f'the populator instantiated {len(created)} handles for '
+                    'the one file r/k in two runs, the layered shape needs 2')
+            ctx.h = created[1]
+            ctx.tracks = [Track(created[1], 'named'),
+                          Track(created[0], 'shadow')]
+        ctx.t = ctx.tracks[0]
+        ctx.ts = ctx.tracks[1] if len(ctx.tracks) > 1 else None
         ctx.worlds = {}
         for path, key in WORLD_KEYS.items():
             wh = desper.WorldFromFileHandle(made['files'][path])
@@ -414,19 +486,15 @@ class HandleDriver:
             wh.clear()
             ctx.worlds[path] = wh
         ctx.s = ctx.m.get_static_map()
-        ctx.accessed = False        # model: an access returned since clear
-        ctx.failed = False          # model: an access failed since clear
-        ctx.epoch_obj = None        # what this epoch's accesses returned
-        #                             (an entry of h.hx_objs, see _same)
-        ctx.fin_seen = 0            # finaliser records already judged
-        ctx.had_epoch = False       # some earlier epoch had an access
         ctx.last_op = None
+        ctx.last_base = None
+        ctx.last_track = ctx.t
         ctx.last_failed = False
         ctx.hist = ()
         return ctx
 
     def ops(self, ctx):
-        return [(a,) for a in ACCESS] + [('clear',)]
+        return [(a,) for a in self.alphabet]
 
     # -- the real calls -------------------------------------------------
     def _access(self, ctx, path):
@@ -435,6 +503,8 @@ class HandleDriver:
         m, h, s = ctx.m, ctx.h, ctx.s
         if path == 'call':
             return [h()]
+        if path == 'shadow_call':
+            return [ctx.ts.h()]
         if path == 'map_composite':
             return [m['r/k']]
         if path == 'map_chained':
@@ -485,12 +555,47 @@ class HandleDriver:
             f['path'] = FAMILY[path]
         return f
 
+    def _hit(self, ctx, t, name):
+        """Named shortcuts of the shadowed handle are counted apart."""
+        ctx.hits[name if t.role == 'named' else 'shadow_' + name] += 1
+
+    def _others_untouched(self, ctx, t, kind, calls0, objs):
+        """Two handles under one name (shape 'layered'): an operation that
+        addresses one of them never runs load() of the other one and never
+        delivers an object the other one loaded."""
+        what = ('the resource r/k' if t.role == 'named'
+                else 'the shadowed handle')
+        for other, before in calls0:
+            whom = ('the handle shadowed under the same name'
+                    if other.role == 'shadow' else
+                    'the handle that is the resource r/k')
+            if other.h.hx_calls != before:
+                raise Violation(
+                    'same_handle_every_path',
+                    f'{kind} addresses {what} and load() of {whom} ran '
+                    f'{other.h.hx_calls - before} time(s)',
+                    **self._features(kind if kind in FAMILY else None))
+            if self.spec in ('none', 'zero', 'empty_str'):
+                continue        # singletons: every handle loads the same one
+            for got in objs or ():
+                if other.h.hx_index(got) is not None \
+                        or _is_in(got, other.h.hx_all) is not None:
+                    raise Violation(
+                        'same_handle_every_path',
+                        f'{kind} addresses {what} and returned an object '
+                        f'loaded by {whom}', **self._features(kind))
+
     def apply(self, ctx, op):
         op = tuple(op)
         kind = op[0]
-        h = ctx.h
+        if kind not in self.alphabet:
+            raise HarnessError(f'unknown operation {op!r}')
+        t = ctx.ts if kind in SHADOW_OPS else ctx.t
+        base = 'clear' if kind in ('clear', 'shadow_clear') else kind
+        h = t.h
         ctx.hist = ctx.hist + (kind,)
-        if kind == 'clear':
+        calls0 = [(o, o.h.hx_calls) for o in ctx.tracks if o is not t]
+        if base == 'clear':
             h.hx_in_clear = True
             try:
                 h.clear()
@@ -500,29 +605,32 @@ class HandleDriver:
             finally:
                 h.hx_in_clear = False
             self._finaliser_records(ctx)
-            if not ctx.accessed:
-                ctx.hits['clear_uncached'] += 1
-            if ctx.last_op == 'clear':
-                ctx.hits['clear_twice'] += 1
-            if ctx.failed and not ctx.accessed:
-                ctx.hits['clear_after_failed_load'] += 1
-            if ctx.accessed:
-                ctx.had_epoch = True
-                ctx.hits['clear_cached'] += 1
-            ctx.accessed = False
-            ctx.failed = False
-            ctx.epoch_obj = None
+            self._others_untouched(ctx, t, kind, calls0, None)
+            if not t.accessed:
+                self._hit(ctx, t, 'clear_uncached')
+            if ctx.last_op == kind:
+                self._hit(ctx, t, 'clear_twice')
+            if t.failed and not t.accessed:
+                self._hit(ctx, t, 'clear_after_failed_load')
+            if t.accessed:
+                t.had_epoch = True
+                self._hit(ctx, t, 'clear_cached')
+                if any(o.accessed for o, _ in calls0):
+                    ctx.hits['layered_clear_one_of_two_cached'] += 1
+            t.accessed = False
+            t.failed = False
+            t.epoch_obj = None
             h.hx_attempts = 0       # harness counters: new epoch
             h.hx_failed = 0
             h.hx_loads = 0
             h.hx_objs = []
             ctx.last_op = kind
+            ctx.last_base = base
+            ctx.last_track = t
             ctx.last_failed = False
             return
-        if kind not in FAMILY:
-            raise HarnessError(f'unknown operation {op!r}')
 
-        flag = self._cached(ctx, op)
+        flag = self._cached(ctx, t)
         loads0, attempts0, failed0 = h.hx_loads, h.hx_attempts, h.hx_failed
         raised = None
         objs = None
@@ -535,8 +643,9 @@ class HandleDriver:
         loaded = h.hx_loads - loads0
         attempts = h.hx_attempts - attempts0
         failed = h.hx_failed - failed0
-        first = not ctx.accessed
+        first = not t.accessed
         self._finaliser_records(ctx)
+        self._others_untouched(ctx, t, kind, calls0, objs)
 
         # cached tells whether the next access will load
         if (attempts >= 1) != (not flag):
@@ -558,15 +667,17 @@ class HandleDriver:
                     'load_once_per_epoch',
                     f'{kind}: load() raised and the same access called it '
                     f'{attempts} time(s) in all', **self._features(kind))
-            ctx.hits['load_raises_once'] += 1
-            if ctx.had_epoch:
-                ctx.hits['failed_load_after_clear'] += 1
+            self._hit(ctx, t, 'load_raises_once')
+            if t.had_epoch:
+                self._hit(ctx, t, 'failed_load_after_clear')
             if kind == 'static_attr':
                 ctx.hits['failed_load_static_attr'] += 1
             if FAMILY[kind] == 'world':
                 ctx.hits['failed_load_world_file'] += 1
-            ctx.failed = True
+            t.failed = True
             ctx.last_op = kind
+            ctx.last_base = base
+            ctx.last_track = t
             ctx.last_failed = True
             return
         if raised is not None:
@@ -578,7 +689,7 @@ class HandleDriver:
         if h.hx_loads != 1:
             what = ('first access of the epoch' if first
                     else 'later access of the epoch')
-            clause = ('reload_after_clear' if first and ctx.had_epoch
+            clause = ('reload_after_clear' if first and t.had_epoch
                       and h.hx_loads == 0 else 'load_once_per_epoch')
             raise Violation(
                 clause, f'{kind} ({what}): load() ran {h.hx_loads} time(s) '
@@ -592,24 +703,25 @@ class HandleDriver:
                         'identical_object',
                         f'{kind} returned {type(got).__name__}, not the '
                         f'object load() produced', **self._features(kind))
-            elif not _same(ctx.epoch_obj, got):
+            elif not _same(t.epoch_obj, got):
                 raise Violation(
                     'identical_object',
                     f'{kind} returned a different object than the earlier '
                     f'accesses of this epoch', **self._features(kind))
         if first:
-            ctx.epoch_obj = h.hx_objs[0]
+            t.epoch_obj = h.hx_objs[0]
         del objs, got
 
         # named shortcuts
-        if first and ctx.failed:
-            ctx.hits['access_after_failed_load'] += 1
-        if first and ctx.had_epoch:
-            ctx.hits['reload_after_clear'] += 1
+        if first and t.failed:
+            self._hit(ctx, t, 'access_after_failed_load')
+        if first and t.had_epoch:
+            self._hit(ctx, t, 'reload_after_clear')
         elif first:
-            ctx.hits['first_load'] += 1
+            self._hit(ctx, t, 'first_load')
         if not first:
-            ctx.hits['cache_hit'] += 1
+            self._hit(ctx, t, 'cache_hit')
+        if not first and t.role == 'named':
             if BAND[self.spec] == 'falsy':
                 ctx.hits['falsy_value'] += 1
             if self.spec in ('eq_false', 'eq_raises', 'eq_true',
@@ -635,8 +747,21 @@ class HandleDriver:
                 ctx.hits['world_file_reference_loads'] += 1
             else:
                 ctx.hits['world_file_reference_cached'] += 1
-        ctx.accessed = True
+        if ctx.ts is not None and t.role == 'named' \
+                and FAMILY[kind] != 'handle':
+            # the name r/k resolved through a container that holds two
+            # handles under it
+            fam = FAMILY[kind]
+            ctx.hits[f'layered_{fam}_access'] += 1
+            if first and ctx.ts.accessed:
+                # ... while only the shadowed handle holds a value
+                ctx.hits[f'layered_{fam}_loads_beside_cached_shadow'] += 1
+            if not first and not ctx.ts.accessed:
+                ctx.hits[f'layered_{fam}_cached_beside_uncached_shadow'] += 1
+        t.accessed = True
         ctx.last_op = kind
+        ctx.last_base = base
+        ctx.last_track = t
         ctx.last_failed = False
 
     def _finaliser_records(self, ctx):
@@ -645,8 +770,12 @@ class HandleDriver:
         clear() was running).  cached == False: the finaliser did nothing.
         cached == True: its h() must have returned an object load()
         produced, without loading."""
-        h = ctx.h
-        records, ctx.fin_seen = h.hx_fin[ctx.fin_seen:], len(h.hx_fin)
+        for t in ctx.tracks:
+            self._finaliser_records_of(ctx, t)
+
+    def _finaliser_records_of(self, ctx, t):
+        h = t.h
+        records, t.fin_seen = h.hx_fin[t.fin_seen:], len(h.hx_fin)
         for rec in records:
             when = 'inside_clear' if rec['inside'] else 'outside_clear'
             f = dict(self._features(), when=when)
@@ -667,18 +796,19 @@ class HandleDriver:
                         'identical_object', f'{what}: h.cached was True and '
                         f'h() returned {rec["got"][1]}, which no load() of '
                         'this handle produced', **f)
-                ctx.hits['finaliser_sees_cached'] += 1
+                self._hit(ctx, t, 'finaliser_sees_cached')
             elif rec['cached'] is not False:
                 raise Violation('cached_flag', f'{what}: h.cached is '
                                 f'{rec["cached"]}, not a bool', **f)
             if rec['inside']:
-                ctx.hits['finaliser_runs_inside_clear'] += 1
+                self._hit(ctx, t, 'finaliser_runs_inside_clear')
                 if rec['cached'] is False:
-                    ctx.hits['finaliser_sees_uncached_inside_clear'] += 1
+                    self._hit(ctx, t, 'finaliser_sees_uncached_inside_clear')
 
-    def _cached(self, ctx, op=None):
+    def _cached(self, ctx, t=None):
+        t = t or ctx.t
         try:
-            flag = ctx.h.cached
+            flag = t.h.cached
         except Exception as exc:
             raise Violation('cached_raises', f'h.cached raised {exc!r}',
                             **self._features())
@@ -689,37 +819,47 @@ class HandleDriver:
 
     # -- state oracle ---------------------------------------------------
     def check(self, ctx):
-        flag = self._cached(ctx)
-        if flag != ctx.accessed:
-            after = ('clear' if ctx.last_op == 'clear' else
-                     'start' if ctx.last_op is None else
-                     'failed_access' if ctx.last_failed else 'access')
-            raise Violation(
-                'cached_flag',
-                f'h.cached is {flag} but '
-                + ('an access returned since the last clear' if ctx.accessed
-                   else 'the only access(es) since the last clear failed in '
-                   'load(): the next access will load' if ctx.failed
-                   else 'no access happened since the last clear'),
-                after=after,
-                # the path matters when an access that returned left the
-                # handle uncached (a path around the cache), not when the
-                # flag survives a failed load (Handle itself)
-                **self._features(ctx.last_op if after == 'access' else None))
-        return (flag, ctx.h.hx_loads, ctx.h.hx_failed)
+        obs = []
+        for t in ctx.tracks:
+            flag = self._cached(ctx, t)
+            if flag != t.accessed:
+                mine = ctx.last_track is t
+                after = ('start' if ctx.last_op is None else
+                         'operation_on_other_handle' if not mine else
+                         'clear' if ctx.last_base == 'clear' else
+                         'failed_access' if ctx.last_failed else 'access')
+                who = 'h' if t.role == 'named' else 'the shadowed handle'
+                raise Violation(
+                    'cached_flag',
+                    f'{who}.cached is {flag} but '
+                    + ('an access returned since the last clear'
+                       if t.accessed else
+                       'the only access(es) since the last clear failed in '
+                       'load(): the next access will load' if t.failed
+                       else 'no access happened since the last clear'),
+                    after=after,
+                    # the path matters when an access that returned left
+                    # the handle uncached (a path around the cache), not
+                    # when the flag survives a failed load (Handle itself)
+                    **self._features(ctx.last_op if after == 'access'
+                                     else None))
+            obs += [flag, t.h.hx_loads, t.h.hx_failed]
+        return tuple(obs)
 
     # -- canonical key --------------------------------------------------
     def key(self, ctx):
-        h = ctx.h
-
         opaque = []
 
         def namer(o):
-            i = h.hx_index(o)
-            if i is not None:
-                return f'value{i}'
-            if (_is_in(o, h.hx_all) is not None
-                    or isinstance(o, FinaliserValue)):
+            for t in ctx.tracks:
+                h = t.h
+                tag = '' if t.role == 'named' else 'shadow-'
+                i = h.hx_index(o)
+                if i is not None:
+                    return f'{tag}value{i}'
+                if _is_in(o, h.hx_all) is not None:
+                    return f'{tag}stale-value'
+            if isinstance(o, FinaliserValue):
                 return 'stale-value'
             if type(o) is object:
                 # a bare object() that is not a loaded value: a private
@@ -732,10 +872,13 @@ class HandleDriver:
                 return f'opaque{i}'
             return None
 
-        model = (ctx.accessed, ctx.failed, h.hx_loads, ctx.had_epoch)
+        model = tuple(t.model() for t in ctx.tracks)
+        if len(model) == 1:
+            model = model[0]
         # filename: the private scratch directory differs from run to run
         try:
-            graph = canon([ctx.m, ctx.h, ctx.s], namer=namer,
+            graph = canon([ctx.m, ctx.s] + [t.h for t in ctx.tracks],
+                          namer=namer,
                           skip_attrs=('hx_all', 'hx_spec', 'hx_loader',
                                       'hx_calls', 'hx_fin', 'filename'))
         except CanonError as exc:
@@ -1128,41 +1271,47 @@ def loop_drivers(tier):
 
 def drivers(tier):
     d = {}
-    for spec in VALUES:
-        for loader in LOADERS:
-            drv = HandleDriver(spec, loader)
-            d[drv.name] = (drv, dict(max_depth=12))
+    for shape in SHAPES:
+        for spec in VALUES:
+            for loader in LOADERS:
+                drv = HandleDriver(spec, loader, shape)
+                d[drv.name] = (drv, dict(max_depth=12))
     return d
 
 
 # -- every history of length D, no state merging -------------------------
-def history_cases(depth, letters=None):
+def history_cases(depth, letters=FULL_LETTERS, shape='plain'):
     import itertools
-    words = [''.join(w) for w in itertools.product(letters or LETTER,
-                                                   repeat=depth)]
-    return [(spec, loader, w) for spec in VALUES for loader in LOADERS
+    words = [''.join(w) for w in itertools.product(letters, repeat=depth)]
+    tail = () if shape == 'plain' else (shape,)
+    return [(spec, loader, w) + tail for spec in VALUES for loader in LOADERS
             for w in words]
 
 
 def split_history_case(case):
+    """-> (value, loader, word, shape)"""
     case = tuple(case)
     if len(case) == 2:              # older records: loader 'ok'
-        return case[0], 'ok', case[1]
-    if len(case) != 3:
+        return case[0], 'ok', case[1], 'plain'
+    if len(case) == 3:
+        return case + ('plain',)
+    if len(case) != 4:
         raise HarnessError(f'malformed case {case!r}')
     return case
 
 
 def run_history(case):
-    spec, loader, word = split_history_case(case)
-    driver = HandleDriver(spec, loader)
+    spec, loader, word, shape = split_history_case(case)
+    driver = HandleDriver(spec, loader, shape)
     ctx = driver.initial()
     driver.check(ctx)
     for letter in word:
+        if letter not in LETTER:
+            raise HarnessError(f'malformed case {case!r}')
         driver.apply(ctx, (LETTER[letter],))
         driver.check(ctx)
     return {'calls': len(word), 'hits': dict(ctx.hits),
-            'key': (spec, loader, word)}
+            'key': (spec, loader, word, shape)}
 
 
 def run(tier, rep):
@@ -1249,8 +1398,9 @@ def run(tier, rep):
         for name, (driver, kw) in drivers(tier).items():
             stats = kernel.explore(driver, rep, part=name,
                                    params=driver.params(), **kw)
-            closed[name[len('fixpoint/'):]] = dict(states=stats['states'],
-                                                   depth=stats['depth'])
+            if name.startswith('fixpoint/'):
+                name = name[len('fixpoint/'):]
+            closed[name] = dict(states=stats['states'], depth=stats['depth'])
         for name, (driver, kw) in loop_drivers(tier).items():
             stats = kernel.explore(driver, rep, part=name,
                                    params=driver.params(), **kw)
@@ -1267,8 +1417,16 @@ def run(tier, rep):
         depth = DEPTH[tier]
         cases = history_cases(depth)
         kernel.enumerate_cases(run_history, cases, rep, 'histories',
-                               params=dict(length=depth, ops=''.join(LETTER),
+                               params=dict(length=depth, ops=FULL_LETTERS,
                                            letters=LETTER,
+                                           values=list(VALUES),
+                                           loaders=list(LOADERS)),
+                               chunk=max(200, len(cases) // 400))
+        depth = LAYERED_DEPTH[tier]
+        cases = history_cases(depth, LAYERED_LETTERS, 'layered')
+        kernel.enumerate_cases(run_history, cases, rep, 'histories-layered',
+                               params=dict(length=depth, ops=LAYERED_LETTERS,
+                                           letters=LETTER, shape='layered',
                                            values=list(VALUES),
                                            loaders=list(LOADERS)),
                                chunk=max(200, len(cases) // 400))
@@ -1289,7 +1447,8 @@ def run(tier, rep):
 
 def replay(rec):
     try:
-        if rec['part'] in ('histories', 'histories-basic'):
+        if rec['part'] in ('histories', 'histories-basic',
+                           'histories-layered'):
             try:
                 run_history(tuple(rec['case']))
             except Violation as v:
